@@ -459,7 +459,7 @@ func verifC03Conc(f []string) string {
 		return len(stub.pending)
 	}
 	quiesce := func() bool {
-		deadline := time.Now().Add(20 * time.Second)
+		deadline := time.Now().Add(300 * time.Second)
 		for i := 0; ; i++ {
 			br, fe := verifC03Goroutines()
 			if int(atomic.LoadInt32(&started)) == int(atomic.LoadInt32(&finished))+br && fe == npending() {
